@@ -60,7 +60,7 @@ func block(t *task, o int) {
 
 //go:norace
 func released(t *task, o int) {
-	for i := 0; i < ntasks; i++ {
+	for i := 0; i < MaxTasks; i++ {
 		if tasks[i].state == tsBlocked && tasks[i].blockedOn == o {
 			tasks[i].state = tsRunnable
 		}
@@ -119,7 +119,7 @@ func onceThunk() {
 func onceDone(t *task, oi int) {
 	objs[oi].held = false
 	objs[oi].owner = -1
-	for i := 0; i < ntasks; i++ {
+	for i := 0; i < MaxTasks; i++ {
 		if tasks[i].state == tsBlocked && tasks[i].blockedOn == oi {
 			tasks[i].state = tsRunnable
 		}
@@ -258,4 +258,69 @@ func RWRUnlock(m *sync.RWMutex) {
 		objs[oi].owner = -1
 	}
 	released(t, oi)
+}
+
+// WaitGroup shims: the counter is mirrored so that Wait never blocks inside the Go runtime on
+// goroutines that are parked by the scheduler.
+type wgEntry struct {
+	ptr unsafe.Pointer
+	n   int
+}
+
+var wgs [32]wgEntry
+
+//go:norace
+func wgFind(p unsafe.Pointer) *wgEntry {
+	for i := range wgs {
+		if wgs[i].ptr == p {
+			return &wgs[i]
+		}
+	}
+	for i := range wgs {
+		if wgs[i].ptr == nil || wgs[i].n == 0 {
+			wgs[i] = wgEntry{ptr: p}
+			return &wgs[i]
+		}
+	}
+	panic("zzsimrt: too many WaitGroups")
+}
+
+//go:norace
+func wgAdjust(w *sync.WaitGroup, d int) {
+	if cur() == nil {
+		return
+	}
+	wgFind(unsafe.Pointer(w)).n += d
+	progress++
+}
+
+// WaitGroupAdd replaces wg.Add(n).
+func WaitGroupAdd(w *sync.WaitGroup, n int) {
+	wgAdjust(w, n)
+	w.Add(n)
+}
+
+// WaitGroupDone replaces wg.Done().
+func WaitGroupDone(w *sync.WaitGroup) {
+	wgAdjust(w, -1)
+	w.Done()
+}
+
+// WaitGroupWait replaces wg.Wait().
+func WaitGroupWait(w *sync.WaitGroup) {
+	wgWait(w)
+	w.Wait() // returns at once; gives the race detector the real happens-before edge
+}
+
+//go:norace
+func wgWait(w *sync.WaitGroup) {
+	t := cur()
+	if t == nil {
+		return
+	}
+	reschedule(t, EvSync)
+	e := wgFind(unsafe.Pointer(w))
+	for e.n > 0 {
+		poll(t)
+	}
 }
